@@ -17,6 +17,6 @@ suite=FAIL
 for try in 1 2 3; do if go test -vet=off -count=1 ./... > "$OUT/$P-seed$N.suite.log" 2>&1; then suite=ok; break; fi; done
 echo "suite_with_change=$suite" >> "$res"
 cp "$D/seed${N}_demo_test.go.txt" "$W/zz_seed_demo_test.go"
-if go test -vet=off -count=1 -run 'Seed' . > "$OUT/$P-seed$N.demo_with.log" 2>&1; then echo "demo_with_change=PASS(unexpected)" >> "$res"; else echo "demo_with_change=fails" >> "$res"; fi
+if go test -vet=off -count=1 ${RACE:-} -run 'Seed' . > "$OUT/$P-seed$N.demo_with.log" 2>&1; then echo "demo_with_change=PASS(unexpected)" >> "$res"; else echo "demo_with_change=fails" >> "$res"; fi
 git apply -R "$patch"
-if go test -vet=off -count=1 -run 'Seed' . > "$OUT/$P-seed$N.demo_without.log" 2>&1; then echo "demo_without_change=passes" >> "$res"; else echo "demo_without_change=FAIL(unexpected)" >> "$res"; fi
+if go test -vet=off -count=1 ${RACE:-} -run 'Seed' . > "$OUT/$P-seed$N.demo_without.log" 2>&1; then echo "demo_without_change=passes" >> "$res"; else echo "demo_without_change=FAIL(unexpected)" >> "$res"; fi
